@@ -28,7 +28,7 @@ def run(tier):
     ev.assumptions = ["reference model pinned to frozen NIST-LWC KAT vectors", "inputs < 2^32 bytes"]
     b = bins(tier)
     ev.configs = [n for n, _ in b]
-    plan = [("c01_encrypt", 50000 if tier == "quick" else 600000, 100)]
+    plan = [("c01_encrypt", 150000 if tier == "quick" else 1500000, 100)]
     rcrun.run_rc(ev, b, plan, finding_key)
     return finish(ev)
 
